@@ -208,11 +208,12 @@ def c01(tier, seed):
     check_chacha.c14(r, "K1", [4, 6, 10])      # the block function at the three declared round counts
     if tier == "thorough":
         check_chacha.c01_new(r, "K2")
-        check_chacha.c01_stream(r, "K1", [0, 1, 63, 64, 65, 255, 256, 257, 321, 600])
+        check_chacha.c01_stream(r, "K1", [0, 1, 63, 64, 65, 255, 256, 257, 321, 600, 1024, 2309])
         check_chacha.c01_stream(r, "K2", [1, 65, 321])
     else:
         check_chacha.c01_stream(r, "K1", [1, 65, 321])
-    r.floor("rule instances", len(r.holds) + len(r.violations), 23)
+        check_chacha.c01_stream(r, "K1", [2309], only=("ChaCha12",))      # nine wide chunks + tail
+    r.floor("rule instances", len(r.holds) + len(r.violations), 24)
     r.assumptions = ["spec/chacha.py (block function, HChaCha) validated against RFC 7539 / XChaCha vectors",
                      "which keystream byte meets which data byte over arbitrary call histories is C02's subject; here only single requests from a fresh cipher are covered"]
     return r.finish(
@@ -353,11 +354,11 @@ def c05(tier, seed):
             jobs.append((check_skein.c05_finalize, ("K1", (name, n), _range_fn(lo, lo + 16))))
     rets = par.run(r, jobs)
     nf = sum(x for (fn, _), x in zip(jobs, rets) if fn is check_skein.c05_finalize and x)
-    r.floor("hasher instantiations (state size x output size)", len(hs), 7)
-    r.floor("finalisation specialisations", nf, 487)
+    r.floor("hasher instantiations (state size x output size)", len(hs), 18)
+    r.floor("finalisation specialisations", nf, 1266)
     r.assumptions = ["Threefish is an uninterpreted function on both sides here; C09 decides that the repository's Threefish equals Skein 1.3's",
                      "spec/skein.py validated against the Skein 1.3 golden KATs with the real Threefish reference",
-                     "output sizes are type-level: the instantiations named by the roots fixture (N = 1, 7, 32, 64, 128, 200 over the three state sizes) are covered; the code depends on N only through the config word 8N and the chunking of the output",
+                     "output sizes are type-level: the 18 instantiations named by the roots fixture (N = 1, 7, 16, 20, 28, 32, 33, 48, 64, 65, 96, 100, 128, 129, 200, 256 over the three state sizes) are covered; the code depends on N only through the config word 8N and the chunking of the output",
                      "block-buffer / block-padding are interpreted from their real MIR"]
     return r.finish(
         "R5.1 process_block on a symbolic state = (t0 += n; x = TF(x, t, block) ^ block; t1 &= !FIRST). R5.2 Default = UBI of "
@@ -485,8 +486,8 @@ def c08(tier, seed):
         jobs.append((check_hashapi.c08_chunking, ("K1", t)))
     rets = par.run(r, jobs)
     nchunk = sum(x for (fn, _), x in zip(jobs, rets) if fn is check_hashapi.c08_chunking and x)
-    r.floor("hasher types (12 + Skein instantiations)", len(hs), 15)
-    r.floor("chunking compositions", nchunk, 108 * 15)
+    r.floor("hasher types (12 + Skein instantiations)", len(hs), 30)
+    r.floor("chunking compositions", nchunk, 108 * 30)
     ok, err = check_static.build_witness()
     if ok:
         r.ok("R8.4", "Clone + Default witnesses for the 15 hash types compile")
